@@ -50,7 +50,7 @@ func ParseDirectives(firstLabel string) Directives {
 			return 0, false
 		}
 		switch p {
-		case "ok", "nx", "empty", "tc", "silent", "garbage", "close", "rst", "half":
+		case "ok", "nx", "empty", "tc", "tcs", "silent", "garbage", "close", "rst", "half":
 			d.Kind = p
 			continue
 		case "servfail":
